@@ -17,7 +17,7 @@ REQUIRED_COUNTERS = ['image-checked', 'preimage-checked', 'image-nonadjacent-che
 
 def bounds(tier):
     return dict(one_pair='exhaustive over 256 relations x admissible sets' if tier == 'thorough' else '64 sampled relations x admissible sets',
-                multi_pair_samples=150 if tier == 'quick' else 4000)
+                multi_pair_samples=150 if tier == 'quick' else 4000 * DEEP)
 
 
 def chunks(tier, seed):
@@ -30,7 +30,7 @@ def chunks(tier, seed):
     for o in orders:
         for k in range(0, len(rel), 32):
             out.append(('case_one_pair', [dict(order=list(o), rels=rel[k:k + 32], seed=seed)]))
-    n = 150 if tier == 'quick' else 4000
+    n = 150 if tier == 'quick' else 4000 * DEEP
     for k in range(0, n, 25):
         out.append(('case_multi', [dict(seed=seed * 211 + k + i) for i in range(25)]))
     return out
